@@ -50,9 +50,9 @@ class C12(Check):
     def bounds(self, tier):
         if tier == 'quick':
             return {'statistics': 'P<=5 K=2 n in {1,2}; biased symbolic', 'tasks': 'K<=3, (N,W) in {(1,1),(2,1),(1,2)}, all completion orders',
-                    'after repopulation': 'P=5,K=2,m=1'}
+                    'after repopulation': 'P=5,K=2,m=1', 'rounds with real repopulation': 'P=5, K=2, m=2, 3 rounds'}
         return {'statistics': 'P<=6 K<=3 n in {1,2,3}; biased symbolic', 'tasks': 'K<=4, (N,W) in {(1,1),(2,1),(1,2),(2,2),(1,3)}, all completion orders',
-                'after repopulation': 'P<=6,K<=3,m<=2'}
+                'after repopulation': 'P<=6,K<=3,m<=2', 'rounds with real repopulation': 'P in {5,6}, K=2, m in {2,3}, 3..4 rounds'}
 
     def configs(self, tier):
         q = tier == 'quick'
@@ -72,6 +72,9 @@ class C12(Check):
         for lim in ((2,) if q else (2, 3)):
             cfgs.append(Config('round_flow_lim%d' % lim, self.round_flow, {'K': 2, 'P': 4, 'lim': lim}, nonlinear=True,
                                split=3))
+        for (P, m, lim) in ([(5, 2, 3)] if q else [(5, 2, 3), (5, 2, 4), (6, 2, 3), (6, 3, 3)]):
+            cfgs.append(Config('round_flow_repop_P%d_m%d_lim%d' % (P, m, lim), self.round_flow_repop,
+                               {'P': P, 'm': m, 'lim': lim}, nonlinear=True, split=3))
         return cfgs
 
     def _judge_stats(self, c, name, new, labels, data, K, n, biased, prev):
@@ -187,6 +190,54 @@ class C12(Check):
                     f.append(R(np.asarray(out.clusters[k].stacked_data_mean)[0]) == mean[0])
                     f.append(R(np.asarray(out.clusters[k].empirical_covariance).item()) == cov[0][0])
         c.notes.update({'kind': 'round_flow', 'K': K, 'P': P, 'limit': lim, 'biased': b})
+        c.prove('every_round_fits_current_labels', conj(f))
+
+    def round_flow_repop(self, c, P, m, lim):
+        """Like round_flow, but every second relabelling empties cluster 1, so the following round
+        starts with a REAL repopulation; the sparsity weight is a symbol distinct from beta."""
+        Rp = self.R
+        K, n = 2, 1
+        data = stubs.sym_array(c, 'x', (P, n), writeable=False)
+        biased = c.bool('biased')
+        lam, beta = c.real('lam', 0), c.real('beta', 0)
+        c.assume(R(lam) != R(beta))
+        stubs.install_linalg(norm=stubs.NormOracle('spread'))
+        ml = MainLoop(Rp, c, K, n, modes={'initial': 'summary', 'statistics': 'real', 'optimise': 'real',
+                                          'repopulate': 'real'},
+                      label_hook=lambda r, T: [0] * T if r % 2 == 0 else [(i + r) % K for i in range(T)])
+        ml.s_initial = lambda k, d: [i % K for i in range(len(d))]
+        old_random = Rp.cm.random
+        Rp.cm.random = stubs.StubRandom()
+        try:
+            with ml:
+                ok, res = guarded(c, 'every_round_fits_current_labels', Rp.front_end.ticc_labels, data,
+                                  window_size=1, num_clusters=K, iteration_limit=lim, min_cluster_size=m,
+                                  sparsity_weight=lam, label_switching_cost=beta, biased_covariance=biased)
+        finally:
+            Rp.cm.random = old_random
+        if not ok:
+            return
+        b = bool(biased)
+        stats = [t for t in ml.trace if t[1] == 'statistics']
+        f = [len(stats) == lim, len(ml.admm_calls) == lim * K,
+             any(t[1] == 'repopulate' and t[3] is not t[2] for t in ml.trace)]
+        if all(f):
+            for r, t in enumerate(stats):
+                labs = [int(x) for x in t[2].point_labels]
+                out = t[3]
+                for k in range(K):
+                    a = ml.admm_calls[r * K + k][0]
+                    f.append(len(a) == 4 and a[0] is out.clusters[k].empirical_covariance)
+                    f.append(stubs.same_terms(a[1], lam))
+                    f.append(stubs.same_terms(a[2], 1) and stubs.same_terms(a[3], n))
+                    members = [i for i, l in enumerate(labs) if l == k]
+                    f.append(len(members) >= 2)
+                    if not f[-1]:
+                        break
+                    mean, cov = sample_stats(data, members, n, b)
+                    f.append(R(np.asarray(out.clusters[k].stacked_data_mean)[0]) == mean[0])
+                    f.append(R(np.asarray(out.clusters[k].empirical_covariance).item()) == cov[0][0])
+        c.notes.update({'kind': 'round_flow_repop', 'K': K, 'P': P, 'limit': lim, 'biased': b, 'm': m})
         c.prove('every_round_fits_current_labels', conj(f))
 
     def tasks(self, c, K, N, W, lamform):
